@@ -135,6 +135,23 @@ pub fn pcorpus() -> PCorpus {
     });
     c.msgs.push(PMsg { name: "Peer", fields: vec![f(1, Msg("Node"), Optional), f(2, Bytes, Single)] });
 
+    // nested declarations: message types and an enum declared inside a message, two levels
+    c.msgs.push(PMsg {
+        name: "Holder",
+        fields: vec![
+            f(1, Msg("Holder.Inner"), Optional),
+            f(2, Msg("Holder.Inner"), Repeated),
+            f(3, Msg("Holder.Other"), Optional),
+            f(4, Msg("Holder.Inner.Deep"), Map(String)),
+            f(5, Msg("Holder.Inner.Deep"), Oneof("sel")),
+            f(6, Msg("Holder.Other"), Oneof("sel")),
+            f(7, Int32, Single),
+        ],
+    });
+    c.msgs.push(PMsg { name: "Holder.Inner", fields: vec![f(1, Int64, Single), f(2, Msg("Holder.Inner.Deep"), Optional), f(3, String, Repeated), f(4, Msg("Holder"), Optional)] });
+    c.msgs.push(PMsg { name: "Holder.Inner.Deep", fields: vec![f(1, Bytes, Single), f(2, Sint32, Repeated), f(3, Msg("Holder.Other"), Optional)] });
+    c.msgs.push(PMsg { name: "Holder.Other", fields: vec![f(1, Double, Single), f(2, String, Map(Int32))] });
+
     c.msgs.push(PMsg {
         name: "Envelope",
         fields: vec![
@@ -143,6 +160,7 @@ pub fn pcorpus() -> PCorpus {
             f(3, Msg("Choice"), Repeated),
             f(4, Msg("Node"), Optional),
             f(5, Msg("Small"), Repeated),
+            f(6, Msg("Holder"), Optional),
             f(15, String, Single),
             f(16, Bytes, Single),
             f(2047, Int64, Single),
@@ -182,33 +200,45 @@ pub fn print_proto(c: &PCorpus) -> String {
         }
         o.push_str("}\n\n");
     }
-    for m in &c.msgs {
-        o.push_str(&format!("message {} {{\n", m.name));
-        let mut oneofs: Vec<&'static str> = vec![];
-        for fl in &m.fields {
-            match &fl.label {
-                PL::Oneof(g) => {
-                    if !oneofs.contains(g) {
-                        oneofs.push(g);
-                    }
-                }
-                PL::Single => o.push_str(&format!("  {} {} = {};\n", kind_text(&fl.kind), fl.name, fl.tag)),
-                PL::Optional => o.push_str(&format!("  optional {} {} = {};\n", kind_text(&fl.kind), fl.name, fl.tag)),
-                PL::Repeated => o.push_str(&format!("  repeated {} {} = {};\n", kind_text(&fl.kind), fl.name, fl.tag)),
-                PL::RepeatedUnpacked => o.push_str(&format!("  repeated {} {} = {} [packed = false];\n", kind_text(&fl.kind), fl.name, fl.tag)),
-                PL::Map(k) => o.push_str(&format!("  map<{}, {}> {} = {};\n", kind_text(k), kind_text(&fl.kind), fl.name, fl.tag)),
-            }
-        }
-        for g in oneofs {
-            o.push_str(&format!("  oneof {} {{\n", g));
-            for fl in &m.fields {
-                if fl.label == PL::Oneof(g) {
-                    o.push_str(&format!("    {} {} = {};\n", kind_text(&fl.kind), fl.name, fl.tag));
-                }
-            }
-            o.push_str("  }\n");
-        }
-        o.push_str("}\n\n");
+    for m in c.msgs.iter().filter(|m| !m.name.contains('.')) {
+        print_msg(c, m, 0, &mut o);
+        o.push('\n');
     }
     o
+}
+
+fn print_msg(c: &PCorpus, m: &PMsg, indent: usize, o: &mut String) {
+    let pad = "  ".repeat(indent);
+    let short = m.name.rsplit('.').next().unwrap();
+    o.push_str(&format!("{}message {} {{\n", pad, short));
+    // children: qualified names with exactly one more segment
+    let prefix = format!("{}.", m.name);
+    for ch in c.msgs.iter().filter(|x| x.name.starts_with(&prefix) && !x.name[prefix.len()..].contains('.')) {
+        print_msg(c, ch, indent + 1, o);
+    }
+    let mut oneofs: Vec<&'static str> = vec![];
+    for fl in &m.fields {
+        match &fl.label {
+            PL::Oneof(g) => {
+                if !oneofs.contains(g) {
+                    oneofs.push(g);
+                }
+            }
+            PL::Single => o.push_str(&format!("{}  {} {} = {};\n", pad, kind_text(&fl.kind), fl.name, fl.tag)),
+            PL::Optional => o.push_str(&format!("{}  optional {} {} = {};\n", pad, kind_text(&fl.kind), fl.name, fl.tag)),
+            PL::Repeated => o.push_str(&format!("{}  repeated {} {} = {};\n", pad, kind_text(&fl.kind), fl.name, fl.tag)),
+            PL::RepeatedUnpacked => o.push_str(&format!("{}  repeated {} {} = {} [packed = false];\n", pad, kind_text(&fl.kind), fl.name, fl.tag)),
+            PL::Map(k) => o.push_str(&format!("{}  map<{}, {}> {} = {};\n", pad, kind_text(k), kind_text(&fl.kind), fl.name, fl.tag)),
+        }
+    }
+    for g in oneofs {
+        o.push_str(&format!("{}  oneof {} {{\n", pad, g));
+        for fl in &m.fields {
+            if fl.label == PL::Oneof(g) {
+                o.push_str(&format!("{}    {} {} = {};\n", pad, kind_text(&fl.kind), fl.name, fl.tag));
+            }
+        }
+        o.push_str(&format!("{}  }}\n", pad));
+    }
+    o.push_str(&format!("{}}}\n", pad));
 }
